@@ -58,6 +58,8 @@ func vCheckRead(c *LogCache, s *mLogStore, idx uint64, id string) {
 	}
 }
 
+var narrowDelete bool
+
 func vCacheOp(c *LogCache, s *mLogStore, tag string) {
 	before := len(s.calls)
 	switch vChoose(tag+".op", 0, 3) {
@@ -79,8 +81,18 @@ func vCacheOp(c *LogCache, s *mLogStore, tag string) {
 		err := c.StoreLog(l)
 		vAssert(len(s.calls) == before+1 && s.calls[before].op == opStoreLogs && s.calls[before].a == l.Index, "C19.passthrough.storelog")
 		vAssert((err == nil) == s.calls[before].ok, "C19.passthrough.storelog-result")
-	case 2: // DeleteRange
-		min, max := vU64(tag+".min"), vU64(tag+".max")
+	case 2: // DeleteRange: bounds at window positions (so that any slot arithmetic on them folds), or the extremes 0 / MaxUint64
+		min, max := uint64(0), ^uint64(0)
+		lo, hi := -1, s.w+1
+		if narrowDelete {
+			lo, hi = 0, s.w // the bounded-sequence harness keeps the fan-out small; the inductive one explores all bounds
+		}
+		if k := vChoose(tag+".minOff", lo, hi); k >= 0 {
+			min = vBase() + uint64(k)
+		}
+		if k := vChoose(tag+".maxOff", -1, hi); k >= 0 {
+			max = vBase() + uint64(k)
+		}
 		err := c.DeleteRange(min, max)
 		vAssert(len(s.calls) == before+1 && s.calls[before].op == opDeleteRange && s.calls[before].a == min && s.calls[before].b == max, "C19.passthrough.delete")
 		vAssert((err == nil) == s.calls[before].ok, "C19.passthrough.delete-result")
@@ -106,6 +118,7 @@ func vCacheOp(c *LogCache, s *mLogStore, tag string) {
 // through the cache equals the direct read. Lifts the claim to sequences of
 // any length (within the window and capacity bound).
 func vh_C19_inductive() {
+	narrowDelete = false
 	vBaseAlign12()
 	w := 3
 	capacity := vChoose("cap", 1, 3+vTier())
@@ -129,6 +142,7 @@ func vh_C19_inductive() {
 // C19.DIFF: NewLogCache on an arbitrary backend followed by a short arbitrary
 // operation sequence; after every operation an arbitrary read agrees.
 func vh_C19_diff() {
+	narrowDelete = true
 	vBaseAlign12()
 	w := 2
 	capacity := vChoose("cap", 1, 3)
